@@ -89,8 +89,9 @@ def run_np_case(rec, k):
             return "mismatch", f"value: out= array holds {res._array!r}, numpy gives {want!r}", {}
         return "match", None, {}
     seq = f in ("concatenate", "stack", "hstack", "vstack")
+    swap = seq and rk == "nd1" and k % 2 == 0          # the plain array first, the Array after it
     try:
-        res = fn([a, b] if k % 2 else (a, b)) if seq else fn(a, b)
+        res = fn(([b, a] if swap else [a, b]) if (k % 2 or swap) else (a, b)) if seq else fn(a, b)
         raised = None
     except Exception as e:
         raised = e
@@ -109,7 +110,7 @@ def run_np_case(rec, k):
         conv = float(1 / cgs(lu))            # a plain number is a dimensionless quantity: expressed in the (scaled dimensionless) unit of the Array
         tol = unit_tol(lu, lu)
     rraw = rarr * conv if conv != 1.0 else rarr
-    want = fn([raw, rraw]) if seq else fn(raw, rraw)
+    want = fn([rraw, raw] if swap else [raw, rraw]) if seq else fn(raw, rraw)
     return _compare(res, want, o, [dt, rdt], tol, f)
 
 
